@@ -128,6 +128,54 @@ func runC11(o *cli.Opts, run *evid.Run) {
 		}
 	})
 	run.Stage("small")
+	// (b2) one path, overwritten by independent systems of identical dimensions (and therefore identical
+	// byte length): every load must return the system that is in the file now
+	{
+		shared := filepath.Join(o.Scratch, "c11-shared.ps")
+		r := gen.RNG(o.Seed, "C11/overwrite")
+		var prevVK string
+		for i := 0; i < o.Pick(12, 100); i++ {
+			key := fmt.Sprintf("C11/overwrite/%d", i)
+			if !run.Wants(key) {
+				continue
+			}
+			ps, k, err := smallSystemK(r, 3, 7, 5) // same circuit, depth and batch every time: same file size
+			if err != nil {
+				continue
+			}
+			raw := i%4 < 2
+			data, _, _ := serialise(ps, raw)
+			os.WriteFile(shared, data, 0o644)
+			back, err := prover.ReadSystemFromFile(shared)
+			ok := true
+			if err != nil {
+				ok = false
+				run.Violate(key, "ReadSystemFromFile rejects a file just written: "+err.Error(), nil)
+			} else {
+				if d := sameSystem(ps, back); d != "" {
+					ok = false
+					run.Violate(key, "a path overwritten with another proving system of the same size was loaded as something else: "+d, map[string]any{"bytes": len(data), "format": fmtName(raw)})
+				} else {
+					x := gen.Below(r, ref.R)
+					if proof, y, err := smallProve(ps, k, x); err == nil {
+						if err := smallVerify(back, k, proof, y); err != nil {
+							ok = false
+							run.Violate(key, "the system loaded from an overwritten path rejects a proof of the system that was written: "+err.Error(), nil)
+						}
+					}
+				}
+				_, vk, _ := partDigests(back)
+				if vk == prevVK {
+					ok = false
+					run.Violate(key, "two independent systems written to the same path load as the same verifying key", nil)
+				}
+				prevVK = vk
+			}
+			run.Case("small/overwrite-same-path", true, key, ok, map[string]any{"format": fmtName(raw), "bytes": len(data)})
+		}
+		os.Remove(shared)
+	}
+	run.Stage("overwrite")
 	// (a) real systems
 	type dimM struct {
 		mode string
